@@ -46,6 +46,37 @@ CHECKS.update({
          "Trusts: the verif file-access hook sits directly in front of os.Stat / os.ReadFile; names that need quoting and contain a backslash are not replayed (covered bare).",
          "DESIGN.md 5/C14"),
 })
+
+CHECKS.update({
+ "C03": ("TLC: fault model over the Tree+Macro+Catalog pipeline: base documents x fault classes x sites with invariants BaseValid / FaultDetected; each (document, fault) replayed directly, in layouts, inside an INCLUDEd file and inside a pasted MACRO body",
+         "3 base documents (valid by the specification) x every applicable site of 20 fault kinds (missing parameter, forbidden annotation, second child, duplicated block, undefined type/enum/tag/macro, JSIGHT missing/not first/repeated/unsupported, similar paths, duplicated path parameter / OperationId): 138 cases. The specification's pipeline must itself report class and token of the fault (M); the real build must reject with that class on that line in 3 layouts, and for appended faults in the included file (with trace) and at the directive inside the macro body.",
+         "Trusts: message patterns per class in harness/cmd/vh/doc.go; lexically detected faults are owned by C12/C01.",
+         "DESIGN.md 5/C03"),
+ "C04": ("TLC: position x defect matrix (MC_C04.tla) with the build-vs-marshal table; every accepted cell, model document, corpus file and corpus mutation must serialise to well-formed JDoc Exchange JSON (shape validator)",
+         "132 applicable cells of 18 schema-carrying positions x 13 defect classes, every accepted document of the block model, all accepted corpus files and seeded mutations: whenever the real build accepts, ToJson and ToJsonIndent must succeed, be valid UTF-8 JSON, agree up to whitespace and satisfy the shape validator (fixed top-level keys, required fields of every entity, object/array nodes carry children, scalar nodes carry scalarValue, every response has a body object).",
+         "Trusts: the shape validator in harness/cmd/vh/sweep.go as a transcription of JDoc Exchange 2.0.0; one recorded finding (Path body with example/rule contradiction).",
+         "DESIGN.md 5/C04"),
+ "C06": ("TLC: macro-graph model (MC_C10cyc) + document model as input generators; repeated builds in one process, in fresh processes, and a seeded history of builds over changing files compared for byte identity",
+         "Every project of the sources (block-model documents, corpus, corpus mutations, 3 125 macro graphs) is built 3-6 times in one process (Go randomises each map range) and compared: catalog bytes or message/file/index/line/column/rendered trace; a sample is rebuilt in fresh processes; a 60/600-step history of builds in one process over rewritten root and included files must match, step by step, what a fresh process gives for the files on disk.",
+         "Cannot force a particular map order without hooks: statistical over thousands of projects x rebuilds. Concurrency is C18.",
+         "DESIGN.md 5/C06"),
+ "C15": ("TLC: all permutations of 5 base block sets through the specified pipeline (invariant: same verdict, same entries as maps); every permutation built by the real code and compared with the base order up to entry order",
+         "600 permutations (5 base sets x 120 orders) covering forward type references, references through request bodies, ENUM used by a type, TAG/Tags at both levels, stand-alone methods with their own path right after URL blocks, JSON-RPC, MACRO defined after use: model invariant OrderIrrelevant; the real catalog of every order equals the real catalog of the base order up to the order of entries inside sections and tag lists, and equals the model's prediction for that order.",
+         "usedUserEnums content is owned by C02 (ignored here).",
+         "DESIGN.md 5/C15"),
+ "C16": ("TLC: Serial.tla (mechanism state of lazy compilation / example cache / response order) enumerates call histories; each history executed on fresh builds of real catalogs and compared with a pristine catalog's bytes",
+         "All 780 (quick) / 19 530 (thorough) call sequences over the 5 accessors up to length 4 / 6 on 7 documents exercising every lazy path, plus the 160 edges of the mechanism-state graph on accepted corpus files (every 6th quick / all thorough): the last call's bytes (or error) must equal what that accessor returns on a pristine build.",
+         "Trusts: TLC; byte comparison only (no semantic comparison needed).",
+         "DESIGN.md 5/C16"),
+ "C17": ("TLC: schema-feature matrix (MC_C17.tla: every rule x value, property/object level, key shortcut, 3 positions) and the C04 notation matrix as generators; OpenAPI soundness predicates on every accepted cell, model document, corpus file and mutation",
+         "330 feature cells + 132 notation cells + every accepted block-model document, lazy-path document, corpus file and seeded mutation: ToOpenAPIJson / ToOpenAPIJsonIndent must return an error value or a document with openapi/info/paths where every HTTP interaction is paths[path][method], every {parameter} is a required path parameter, every $ref resolves, every user type is a component, response keys are codes or default. A panic is a violation.",
+         "Trusts: the predicate implementation in harness/cmd/vh/sweep.go; OpenAPI documents are not validated against the full 3.0.3 schema (only the listed predicates).",
+         "DESIGN.md 5/C17"),
+ "C19": ("TLC: Inc.tla with a Banned parameter over 3 projects x all 496 sets of <= 2 banned kinds (invariant BanRule); each replayed through core.WithBannedDirectives and compared with the build without the option",
+         "1 488 cases: every singleton and pair of the 31 kinds x 3 projects that contain every kind directly, in an INCLUDEd file, in pasted MACRO bodies and in a never-pasted MACRO. A banned kind that occurs => not-allowed on the first such directive in scanning order (file, line, include trace); none occurs => verdict and catalog bytes identical to the build without the option.",
+         "Trusts: message pattern of the not-allowed class.",
+         "DESIGN.md 5/C19"),
+})
 NOT_YET = {}
 ALL = ["C%02d" % i for i in range(1, 20)]
 
@@ -71,7 +102,7 @@ def main():
     hooks = subprocess.run(["git", "-C", "/repo", "log", "--format=%H %s"], capture_output=True, text=True).stdout.splitlines()
     m = {
         "version": 1,
-        "setup_cmd": "cd /verif/harness && cp /repo/go.sum . && %s go build -tags verif -o /dev/null ./cmd/vh && for m in MC_C02 MC_C07 MC_C09 MC_C10 MC_C11 MC_C12 MC_C13 MC_C14; do (cd /verif/spec && tla-sany $m.tla >/dev/null) || exit 1; done" % GO,
+        "setup_cmd": "cd /verif/harness && cp /repo/go.sum . && %s go build -tags verif -o /dev/null ./cmd/vh && for m in MC_C02 MC_C03 MC_C04 MC_C07 MC_C09 MC_C10 MC_C11 MC_C12 MC_C13 MC_C14 MC_C15 MC_C16 MC_C17 MC_C19; do (cd /verif/spec && tla-sany $m.tla >/dev/null) || exit 1; done" % GO,
         "hooks": {
             "guard": "verif",
             "enable": "go build -tags verif (the harness module /verif/harness replaces github.com/jsightapi/jsight-api-core with /repo)",
